@@ -12,7 +12,7 @@ The oracle below is written from the property text only: it expands ranges
 itself (N x value; start + i*delta), knows numeric / lexicographic / bytewise
 order for single values, and otherwise checks laws.
 """
-import struct, itertools
+import re, struct, itertools
 
 HARNESS = ["h_C16.cpp"]
 VARIANT = "asan"
@@ -43,8 +43,11 @@ TRUSTED = ["harness/h_C16.cpp builds rtosc_arg_val_t arrays (exact-size heap cop
            "functional extensionality)",
            "the C compiler's float ==, <, +, * being IEEE 754 binary32/binary64 round-to-nearest-even (tied by the run)"]
 ASSUMPTIONS = ["comparison options are NULL (tolerance 0)",
-               "no NaN among the compared values (NaN is unordered in C; cases containing one are compared "
-               "model-vs-implementation only)",
+               "the proved laws (C16_*_partial) assume no NaN among the compared values; with a NaN they are false of "
+               "model and code (C16_nan_refuted, finding class nan-in-list).  NaN lists are generated and judged: "
+               "'cmp = 0 exactly when eq', iteration, message and equal treatment of all ways of writing hold for them "
+               "too and stay violations; a failure of reflexivity / antisymmetry / transitivity / 'same values compare "
+               "0' is the known finding only if the first difference the comparison meets is the NaN",
                "ranges are finite (repeat count >= 1): an endless range compares equal to every list it is a "
                "prefix pattern of, which is not transitive by design",
                "ranges with delta have delta and start of one type among c i h f d or both boolean, N x value repeats "
@@ -329,6 +332,27 @@ def rnd_list(rng, maxn=6):
             vals += rnd_run(rng, n - len(vals))
     return vals[:n]
 
+def with_nan(rng, vals):
+    """the list with a NaN put in: in place of a value, appended, inside an array,
+    or as a run of 2..3 (so that 'N x NaN' is among the ways of writing it)"""
+    vals = list(vals)
+    nan = rng.choice(NANS)
+    r = rng.random()
+    if not vals or r < 0.2:
+        return (vals + [nan])[:6] if len(vals) < 6 else [nan] + vals[1:]
+    k = rng.randrange(len(vals))
+    if r < 0.55:
+        vals[k] = nan
+    elif r < 0.75:
+        vals = (vals[:k] + [nan] * rng.randint(2, 3) + vals[k + 1:])[:6]
+    else:
+        v = vals[k]
+        es = list(v[2]) if v[0] == "a" else []
+        es.insert(rng.randint(0, len(es)), nan)
+        vals[k] = ("a", ord(nan[0]) if rng.random() < 0.7 else rng.choice(ARR_TYPES), tuple(es[:4]))
+    if not has_nan(vals): vals[0] = nan
+    return vals
+
 def mutate(rng, vals):
     vals = list(vals)
     r = rng.random()
@@ -489,6 +513,8 @@ def bump(dist, k, n=1): dist[k] = dist.get(k, 0) + n
 def gen_laws(rng, dist):
     k = rng.choice([2, 3, 3, 3, 4, 5, 7])
     base = rnd_list(rng)
+    if rng.random() < 0.03:
+        base = with_nan(rng, base)            # finding class nan-in-list
     lists = [base]
     while len(lists) < k:
         r = rng.random()
@@ -507,6 +533,7 @@ def gen_laws(rng, dist):
     al = alias_field(rng, dist)
     bump(dist, "laws:lists-with-array", sum(1 for l in lists if has_array(l)))
     bump(dist, "laws:empty-lists", sum(1 for l in lists if not l))
+    bump(dist, "laws:lists-with-nan", sum(1 for l in lists if has_nan(l)))
     return "laws " + " ".join(show(t) for t in toks) + al
 
 def alias_field(rng, dist):
@@ -527,10 +554,13 @@ def gen_comp(rng, dist, want):
         v = vals[k]
         vals = vals[:k] + [v] * rng.randint(2, 3) + vals[k + 1:]
         vals = vals[:6]
+    if rng.random() < 0.03:
+        vals = with_nan(rng, vals)
     vs, npool = some_ways(rng, vals, want)
     b = mutate(rng, vals) if rng.random() < 0.8 else rnd_list(rng)
     btok = random_way(rng, b, 0.5) if rng.random() < 0.4 else plain(b)
     bump(dist, "comp:variants", len(vs))
+    bump(dist, "comp:values-with-nan", 1 if has_nan(vals) else 0)
     bump(dist, "comp:ways<=48" if npool < 48 else "comp:ways-sampled")
     bump(dist, "comp:with-delta-range", 1 if any(t.endswith(":1") and t.startswith("R:") for v in vs for t in v) else 0)
     bump(dist, "comp:with-repeated-array", 1 if any(v[i].startswith("R:") and v[i].endswith(":0") and v[i + 1].startswith("a:")
@@ -584,7 +614,21 @@ def gen(rng, tier, dist):
     for k in (1, 2, 3):
         out.append("laws " + " ".join(tok(v) for v in singles) + " #alias=%d" % k)
     bump(dist, "laws:alias-blocks", 4)
+    # cases the oracle would say nothing about (see SILENT): none are generated
+    bump(dist, "oracle-silent cases generated", sum(1 for c in out if oracle_silent(c)))
     return out
+
+def oracle_silent(case):
+    f = [x for x in case.split(" ")[1:] if x and not x.startswith("#")]
+    try:
+        if case.startswith("laws "):
+            for x in f: expand([] if x == "-" else x.split(","))
+        elif case.startswith("comp "):
+            vs = [expand([] if x == "-" else x.split(",")) for x in f[1:]]
+            if any(v != vs[1] for v in vs[2:]): return True
+        return False
+    except (Malformed, ValueError, IndexError):
+        return True
 
 # ---------------------------------------------------------------------------
 # the Spec on the implementation's output
@@ -597,36 +641,27 @@ def parse_laws(case, impl):
     m = dict(p.split("=") for p in impl.split(" "))
     return lists, m["cmp"], m["eq"]
 
-def check_laws(case, impl):
-    lists, cm, em = parse_laws(case, impl)
-    k = len(lists)
-    if len(cm) != k * k or len(em) != k * k:
-        return "output: malformed result"
-    sg = {"-": -1, "0": 0, "+": 1}
-    if any(ch not in sg for ch in cm):
-        return "output: malformed result"
-    try:
-        vals = [expand(t) for t in lists]
-    except Malformed:
-        return None
-    ok = [not has_nan(v) for v in vals]
-    C = [[sg[cm[i * k + j]] for j in range(k)] for i in range(k)]
-    E = [[em[i * k + j] == "1" for j in range(k)] for i in range(k)]
-    idx = [i for i in range(k) if ok[i]]
-    for i in idx:
-        if C[i][i] != 0 or not E[i][i]:
-            return "reflexive: cmp(x,x)=%d eq(x,x)=%d for x=%s" % (C[i][i], E[i][i], show(lists[i]))
+def laws_on(idx, k, C, E, vals, lists, kinds=None):
+    """the laws on the lists with the indices idx; kinds limits the laws looked at"""
+    def want(kd): return kinds is None or kd in kinds
+    if want("reflexive"):
+        for i in idx:
+            if C[i][i] != 0 or not E[i][i]:
+                return "reflexive: cmp(x,x)=%d eq(x,x)=%d for x=%s" % (C[i][i], E[i][i], show(lists[i]))
     for i in idx:
         for j in idx:
-            if C[i][j] != -C[j][i]:
+            if want("antisymmetric") and C[i][j] != -C[j][i]:
                 return "antisymmetric: cmp(a,b)=%d cmp(b,a)=%d a=%s b=%s" % (C[i][j], C[j][i], show(lists[i]), show(lists[j]))
-            if E[i][j] != (C[i][j] == 0):
+            if want("eq-iff-cmp0") and E[i][j] != (C[i][j] == 0):
                 return "eq-iff-cmp0: cmp(a,b)=%d eq(a,b)=%d a=%s b=%s" % (C[i][j], E[i][j], show(lists[i]), show(lists[j]))
-            if vals[i] == vals[j] and C[i][j] != 0:
+            if want("compression") and vals[i] == vals[j] and C[i][j] != 0:
                 return "compression: same values compare %d a=%s b=%s" % (C[i][j], show(lists[i]), show(lists[j]))
-            e = expected_sign(vals[i], vals[j])
-            if e is not None and e != C[i][j]:
-                return "order: cmp(a,b)=%d, the values say %d a=%s b=%s" % (C[i][j], e, show(lists[i]), show(lists[j]))
+            if want("order"):
+                e = expected_sign(vals[i], vals[j])
+                if e is not None and e != C[i][j]:
+                    return "order: cmp(a,b)=%d, the values say %d a=%s b=%s" % (C[i][j], e, show(lists[i]), show(lists[j]))
+    if not want("transitive"):
+        return None
     # transitive: a<=b and b<=c -> a<=c, strict if one of them is; via bit sets
     le = [0] * k
     lt = [0] * k
@@ -646,6 +681,36 @@ def check_laws(case, impl):
                     C[a][b], C[b][c], C[a][c], show(lists[a]), show(lists[b]), show(lists[c]))
     return None
 
+def check_laws(case, impl):
+    lists, cm, em = parse_laws(case, impl)
+    k = len(lists)
+    if len(cm) != k * k or len(em) != k * k:
+        return "output: malformed result"
+    sg = {"-": -1, "0": 0, "+": 1}
+    if any(ch not in sg for ch in cm):
+        return "output: malformed result"
+    try:
+        vals = [expand(t) for t in lists]
+    except Malformed:
+        SILENT["laws:list outside the stated layout"] = SILENT.get("laws:list outside the stated layout", 0) + 1
+        return None
+    ok = [not has_nan(v) for v in vals]
+    C = [[sg[cm[i * k + j]] for j in range(k)] for i in range(k)]
+    E = [[em[i * k + j] == "1" for j in range(k)] for i in range(k)]
+    # 1. every law on the NaN-free lists
+    r = laws_on([i for i in range(k) if ok[i]], k, C, E, vals, lists)
+    if r or all(ok):
+        return r
+    # 2. the lists holding a NaN as well.  The property text makes no exception for
+    #    them, so nothing is dropped: "0 exactly when equal" must (and does) hold with
+    #    NaN too; a failure of reflexivity / antisymmetry / "same values compare 0" /
+    #    transitivity that step 1 did not see involves a NaN list - that is the
+    #    finding class nan-in-list (classify() re-derives it from the case).
+    allidx = list(range(k))
+    r = laws_on(allidx, k, C, E, vals, lists, kinds=("eq-iff-cmp0",))
+    if r: return r
+    return laws_on(allidx, k, C, E, vals, lists, kinds=("reflexive", "antisymmetric", "compression", "transitive"))
+
 def check_comp(case, impl):
     f = case.split(" ")
     addr = bytes.fromhex(f[1])
@@ -657,9 +722,12 @@ def check_comp(case, impl):
         vals = expand(vtok[0])
         for t in vtok[1:]:
             if expand(t) != vals:
-                return None        # not variants of one list (hand-written case): nothing to say
+                # not variants of one list (hand-written case): nothing to say
+                SILENT["comp:not variants of one list"] = SILENT.get("comp:not variants of one list", 0) + 1
+                return None
         bvals = expand([] if f[2] == "-" else f[2].split(","))
     except Malformed:
+        SILENT["comp:list outside the stated layout"] = SILENT.get("comp:list outside the stated layout", 0) + 1
         return None
     nan = has_nan(vals)
     exp_it = show_vals(vals)
@@ -669,6 +737,7 @@ def check_comp(case, impl):
         exp_msg = "ERR" if m is None else m.hex()
         if not vtok[0]: exp_msg = "-"      # rtosc_avmessage is not called with 0 values
     first = None
+    nanfail = None
     for t, p in zip(vtok, parts):
         g = p.split(" ")
         if len(g) != 3 or not g[1].startswith("it=") or not g[2].startswith("msg="):
@@ -676,8 +745,12 @@ def check_comp(case, impl):
         if first is None: first = g
         if g[0][:6] != first[0][:6]:
             return "compression: eq/cmp against %s differ: %s for %s, %s for %s" % (f[2], first[0], show(vtok[0]), g[0], show(t))
-        if not nan and g[0][6:] != "s01":
-            return "compression: %s does not compare equal to %s (%s)" % (show(t), show(vtok[0]), g[0])
+        if g[0][6:] != "s01":
+            msg = "compression: b=%s does not compare equal to a=%s (%s)" % (show(t), show(vtok[0]), g[0])
+            if not nan: return msg
+            # with a NaN among the values: reported last (class nan-in-list), after
+            # everything that must hold with NaN too
+            if nanfail is None: nanfail = msg
         if g[1][3:] != exp_it:
             return "iteration: %s yields %s, its values are %s" % (show(t), g[1][3:], exp_it)
         if g[2] != first[2]:
@@ -689,7 +762,7 @@ def check_comp(case, impl):
         got = {"-": -1, "0": 0, "+": 1}.get(first[0][4])
         if e is not None and got != e:
             return "order: cmp(a,b)=%s, the values say %d a=%s b=%s" % (first[0][4], e, show(vtok[0]), f[2])
-    return None
+    return nanfail
 
 def spec_check(case, impl):
     if impl is None or impl.startswith("CRASH") or impl == "NOOUT":
@@ -718,8 +791,57 @@ def nontrivial(case, impl):
                         return True
     return False
 
+NAN_KINDS = ("reflexive", "antisymmetric", "compression", "transitive")
+
+def first_difference(va, vb):
+    """walks two written-out lists like the comparison does: 'nan' when the first
+    position where they do not hold the same non-NaN value is a float/double pair
+    with a NaN on either side, 'equal' when there is no such position, 'other' when
+    something else (type, value, length) decides first"""
+    for x, y in zip(va, vb):
+        if x[0] != y[0]: return "other"
+        if x[0] == "f" and (isnan32(x[1]) or isnan32(y[1])): return "nan"
+        if x[0] == "d" and (isnan64(x[1]) or isnan64(y[1])): return "nan"
+        if x[0] == "a":
+            if x[1] != y[1]: return "other"
+            r = first_difference(list(x[2]), list(y[2]))
+            if r != "equal": return r
+        elif x != y:
+            return "other"
+    return "equal" if len(va) == len(vb) else "other"
+
 def classify(case, impl, failure):
+    """nan-in-list: reflexivity, antisymmetry, transitivity or 'two ways of writing the
+    same values compare 0' fails and, for two of the lists the failure names (or one
+    of them against itself), the first difference the comparison meets is a NaN.
+    That implies 'not all_nonan' of a named list, the negation of the side condition
+    of the C16_*_partial theorems; it is narrower, so a NaN list whose comparison is
+    decided before the NaN is reached is still judged.  'cmp = 0 exactly when eq' is
+    never in the class.  Decided from the case text only: the lists the failure names
+    (x= a= b= c=) must be lists of the case."""
+    kind = failure.split(":")[0]
+    if kind not in NAN_KINDS:
+        return None
+    named = re.findall(r"\b[xabc]=(\S+)", failure)
+    f = [x for x in case.split(" ")[1:] if x and not x.startswith("#")]
+    inputs = set(f[1:] if case.startswith("comp ") else f)
+    if not named or any(n not in inputs for n in named):
+        return None
+    try:
+        vs = [expand([] if n == "-" else n.split(",")) for n in named]
+    except (Malformed, ValueError, IndexError):
+        return None
+    for i in range(len(vs)):
+        for j in range(i, len(vs)):
+            if first_difference(vs[i], vs[j]) == "nan":
+                return "nan-in-list"
     return None
+
+# cases the oracle says nothing about (hand-written corpus lines outside the layout the
+# theorems speak of); reported in the evidence, expected 0 for generated cases
+SILENT = {}
+def extra_evidence(ctx):
+    return {"oracle_silent": dict(SILENT), "oracle_silent_total": sum(SILENT.values())}
 
 def minimise(case, impl, failure, run):
     """laws: keep only the lists the failure names"""
@@ -746,9 +868,9 @@ TECHNIQUE = ("Coq proofs about a cursor-level model of the arg-val iterator, ran
 LEVEL_TEXT = ("For every pair/triple of well-formed argument-value lists (unbounded length, every type, arrays - also "
               "nested - and every finite 'N x value' / range-with-delta compression; no NaN) the model's "
               "rtosc_arg_vals_cmp is the lexicographic comparison of the keys of the written-out values and "
-              "rtosc_arg_vals_eq is 'that comparison says equal' (C16_cmp_is_key_order, C16_eq_is_key_equality); hence "
+              "rtosc_arg_vals_eq is 'that comparison says equal' (C16_cmp_is_key_order_partial, C16_eq_is_key_equality_partial); hence "
               "reflexive, antisymmetric (cmp b a = -cmp a b), transitive incl. the strict cases, eq <-> cmp = 0 "
-              "(C16_refl/antisym/trans/eq_iff_cmp0); numbers numerically, strings lexicographically, blobs bytewise with "
+              "(C16_refl/antisym/trans/eq_iff_cmp0 _partial: side condition 'no NaN', which cannot be dropped: C16_nan_refuted); numbers numerically, strings lexicographically, blobs bytewise with "
               "a proper prefix first, 'immediately' first (C16_numeric_*, C16_lexicographic, C16_blob_prefix, "
               "C16_immediately_first).  The float order key and the model's ==/> on bit patterns are proved to be the "
               "IEEE 754 comparison of Flocq (Bcompare/Beqb/Bltb on b32_of_bits/b64_of_bits) for all bit patterns, NaN "
@@ -756,11 +878,11 @@ LEVEL_TEXT = ("For every pair/triple of well-formed argument-value lists (unboun
               "C16_numeric_float/double_IEEE).  Two ways of writing the same values give the same eq/cmp against every "
               "list, compare equal to each other, iterate to exactly those values and build the same message, which is "
               "the OSC 1.0 encoding enc_spec (C01's Spec encoder) of the tags and payloads of the written-out values, a "
-              "top-level array being the bare tag 'a' (C16_compress_invariant, C16_iterate_message, "
+              "top-level array being the bare tag 'a' (C16_compress_invariant_partial, C16_iterate_message, "
               "C16_message_is_osc_encoding, C16_payload_tags_agree, C16_denote_functional).  range_arg is start + i*delta: "
               "wrapping for i c h, and for the Flocq instance of the float arithmetic binary32/64 round-to-nearest-even "
               "with its real-number meaning when nothing overflows (C16_range_arg, C16_range_arg_flocq32/64[_real]).  "
-              "The 25 stdlib-only theorems hold for every float arithmetic F and are Closed under the global context; "
+              "The 26 stdlib-only theorems hold for every float arithmetic F and are Closed under the global context; "
               "the 13 Flocq theorems list Flocq's four standard axioms.  Proved about the code after the fix: commits "
               "(D14, D15, D22, D23, D24 and the wrap fix); the functions before the fixes and their refuting witnesses "
               "are in coq/ArgVal/AvRegress.v.")
